@@ -17,28 +17,28 @@ PROPS = {
                      "through all 8 selections + the default overload (API) and judged against the proved reference inclM; "
                      "non-trivial = L(A) non-empty (so the verdict is not vacuous); distinct = distinct case text",
                 assumptions=PROOF_ASSUME),
-    "C02": dict(level="proof", kinds=[("union", 3), ("unionpre", 2), ("uniondisj", 2), ("isect", 3), ("isectbu", 3)],
+    "C02": dict(level="proof", cli=dict(kinds=[("cliop_c02", 1)], quick=150, thorough=4000), kinds=[("union", 3), ("unionpre", 2), ("uniondisj", 2), ("isect", 3), ("isectbu", 3)],
                 n=dict(quick=3000, thorough=300000, search=4000),
                 rule="pairs of explicit tree automata with overlapping / sparse numbers; results judged by isUnionM / isIsectM "
                      "(proved), the reported maps by coverage, injectivity and the image / product certificate; operands "
                      "re-read after the call; non-trivial = result language non-empty or maps pre-filled; distinct = case text",
                 assumptions=PROOF_ASSUME),
-    "C03": dict(level="proof", kinds=[("trim", 1)], n=dict(quick=4000, thorough=200000, search=4000),
+    "C03": dict(level="proof", cli=dict(kinds=[("cliop_c03", 1)], quick=150, thorough=4000), kinds=[("trim", 1)], n=dict(quick=4000, thorough=200000, search=4000),
                 rule="automata with dead children, final states without rules, unreachable rule owners (shortcut shape); "
                      "RemoveUnreachableStates / RemoveUselessStates / IsLangEmpty judged by equivM, allReachableB, allUsefulB, "
                      "emptyM and compared exactly with the models; non-trivial = some rule dropped by one of the operations",
                 assumptions=PROOF_ASSUME),
-    "C04": dict(level="proof", kinds=[("simdown", 1), ("simup", 1)], n=dict(quick=3000, thorough=300000, search=4000),
+    "C04": dict(level="proof", cli=dict(kinds=[("cliop_c04", 1)], quick=150, thorough=4000), kinds=[("simdown", 1), ("simup", 1)], n=dict(quick=3000, thorough=300000, search=4000),
                 rule="automata numbered 0..n-1 in random order with n passed (downward: arbitrary, with useless and leaf-only "
                      "states; upward: trimmed by construction, precondition re-checked by the driver); the relation read back "
                      "with get(q,r) on all states is compared exactly with the greatest downward / upward simulation computed "
                      "by naive refinement; non-trivial = relation strictly between identity and full",
                 assumptions=PROOF_ASSUME),
-    "C05": dict(level="proof", kinds=[("reduce", 1)], n=dict(quick=3000, thorough=300000, search=4000),
+    "C05": dict(level="proof", cli=dict(kinds=[("cliop_c05", 1)], quick=150, thorough=4000), kinds=[("reduce", 1)], n=dict(quick=3000, thorough=300000, search=4000),
                 rule="automata with duplicated (simulation-equivalent) states, sparse numbers, useless states; Reduce judged by "
                      "equivM, the two counts and states ⊆; non-trivial = the number of states decreased",
                 assumptions=PROOF_ASSUME),
-    "C06": dict(level="proof", kinds=[("compl", 1)], n=dict(quick=2500, thorough=200000, search=3000),
+    "C06": dict(level="proof", cli=dict(kinds=[("cliop_c06", 1)], quick=150, thorough=4000), kinds=[("compl", 1)], n=dict(quick=2500, thorough=200000, search=3000),
                 rule="automata over a fresh on-the-fly alphabet (1–4 symbols, ranks ≤2, unused symbols, nullary-only alphabets, "
                      "empty and universal languages); Complement judged by isComplM (proved, both clauses); non-trivial = both "
                      "L(A) and L(C) non-empty",
@@ -51,7 +51,7 @@ PROPS = {
                      "reference); all 128 option words on both encodings must throw NotImplementedException unless implemented; "
                      "non-trivial = L(A) non-empty",
                 assumptions=PROOF_ASSUME),
-    "C08": dict(level="proof", kinds=[("bddh", 6), ("bddtd", 1)], n=dict(quick=2500, thorough=200000, search=3000),
+    "C08": dict(level="proof", cli=dict(kinds=[("cliop_c08", 1)], quick=150, thorough=4000), kinds=[("bddh", 6), ("bddtd", 1)], n=dict(quick=2500, thorough=200000, search=3000),
                 rule="histories over a pool of automata in one BDD encoding (bottom-up or top-down): load from Timbuk text, "
                      "copy, assign, destroy, load into an existing automaton (AddTransition on a possibly shared table), "
                      "SetStateFinal, Union, UnionDisjointStates, Intersection, RemoveUnreachableStates, RemoveUselessStates; "
@@ -66,7 +66,7 @@ PROPS = {
                      "proved reference inclW (both directions per pair); a call that does not return within 5 s counts as a "
                      "violation (state spaces are ≤ 2^9); non-trivial = L(A) non-empty",
                 assumptions=PROOF_ASSUME),
-    "C10": dict(level="proof", kinds=[("nfah_ops", 1)], n=dict(quick=3000, thorough=300000, search=4000),
+    "C10": dict(level="proof", cli=dict(kinds=[("cliop_c10", 1)], quick=150, thorough=4000), kinds=[("nfah_ops", 1)], n=dict(quick=3000, thorough=300000, search=4000),
                 rule="histories of Union / UnionDisjointStates (repeated with one left operand and right operands sharing "
                      "numbers) / Intersection / Reverse / RemoveUnreachableStates / RemoveUselessStates / GetCandidateTree on a "
                      "pool of NFAs incl. results of earlier steps; every result judged by isUnionW / isIsectW / equivW / inclW / "
@@ -151,7 +151,7 @@ PROPS = {
                      "fresh translator), CollapseStates, TranslateSymbols with injective, merging, identity and sparse maps, "
                      "one symbol at several arities; exact equality with the image automaton; non-trivial = merging map",
                 assumptions=PROOF_ASSUME),
-    "C15": dict(level="proof", kinds=[("cand", 1)], n=dict(quick=4000, thorough=200000, search=4000),
+    "C15": dict(level="proof", cli=dict(kinds=[("cliop_c15", 1)], quick=150, thorough=4000), kinds=[("cand", 1)], n=dict(quick=4000, thorough=200000, search=4000),
                 rule="automata with leaf-only languages, deep witnesses, unproductive final states; GetCandidateTree judged by "
                      "sub-automaton test (else inclM) and emptyM on both; non-trivial = L(A) non-empty",
                 assumptions=PROOF_ASSUME),
